@@ -23,8 +23,15 @@ SomeCondHolds(b) == \E x \in BrSet(b) : ~IsDefault(x) /\ Bit(D.branches[x].cond)
 CondHolds(r) == IF IsDefault(r) THEN ~SomeCondHolds(BlockOf(r)) ELSE Bit(D.branches[r].cond) = 1
 CalleesReady(r) == \A t \in SeqSet(D.branches[r].calls) : L.trdy[t] = 1
 Admissible(r) == CondHolds(r) /\ CalleesReady(r)
-EnclRun(b) == IF D.blocks[b].encl = 0 THEN L.prun = 1 ELSE L.bw[D.blocks[b].encl] = 1
-BrRun(r) == L.bw[r] = 1
+\* A branch has run when its witness (a comb assignment inside the branch) is up, or when one of the methods it
+\* calls executes with this branch's argument (every call site passes its own branch id, the enclosing body's own
+\* calls pass 7; the targets are exclusive methods, so data_in identifies the caller).
+BrRun(r) == \/ L.bw[r] = 1
+            \/ \E t \in SeqSet(D.branches[r].calls) : L.trun[t] = 1 /\ L.tdin[t] = r
+EnclRun(b) == IF D.blocks[b].encl = 0 THEN L.prun = 1 ELSE BrRun(D.blocks[b].encl)
+\* every hop of the call chain from the harness transaction to a method-parent is taken (D.chain[i] =
+\* [kind, cond]; "plain" hops have cond = 0)
+ChainHolds == \A i \in 1..Len(D.chain) : Bit(D.chain[i].cond) = 1
 
 \* ---- the sentences of C12
 BranchNeedsParentCondAndCallees ==
@@ -51,7 +58,7 @@ BodyCanRun ==
   /\ D.pkind = "M" => Bit(D.cready) = 1
   /\ \A t \in SeqSet(D.pcalls) : L.trdy[t] = 1
   /\ BlockCanRun(1)
-ModelBodyRunsIffCan == (L.prun = 1) <=> BodyCanRun
+ModelBodyRunsIffCan == (L.prun = 1) <=> (BodyCanRun /\ ChainHolds)
 \* a running enclosing body runs one runnable branch of each of its blocks (the first one with priority)
 ModelBranchChoice ==
   \A b \in Blocks : EnclRun(b) =>
@@ -63,5 +70,7 @@ ModelTargetRuns ==
   \A t \in Targets : (L.trun[t] = 1) <=> ((L.prun = 1 /\ t \in SeqSet(D.pcalls)) \/ CalledBy(t) # {})
 ModelTargetArg ==
   \A t \in Targets : (L.trun[t] = 1 /\ CalledBy(t) # {}) => L.tdin[t] \in CalledBy(t)
+\* the witness and the callees of a branch agree
+ModelWitness == \A r \in Branches : BrRun(r) => L.bw[r] = 1
 ModelTargetReady == \A t \in Targets : (L.trdy[t] = 1) <=> (IF D.targets[t].ready = 0 THEN TRUE ELSE L.inp[D.targets[t].ready] = 1)
 ====
